@@ -16,6 +16,16 @@
 //!    order (base members first) is the order of the member list, so the reference layouts do not depend on it.
 //!  * two uses in one program (`check_pair`): a consistent and an inconsistent struct in either order, or one struct
 //!    used twice, over every pair of plainly written uses and every form next to every plain use.
+//!  * array lengths written as constant expressions (`check_len_case`): the one array of 5 wrapper structs (quick: 3)
+//!    whose consistency depends on the length (n % 4, n % 2, never) has its length n = 1-4 written as another literal
+//!    spelling, `a op b` for every a, b in 0-8 and 10 operators, `a op b op c` with and without parentheses, through
+//!    `static const` (u)int constants, and as every enumerator with value 1-4 of every enum with 1-4 (thorough: 5)
+//!    enumerators each of which is implicit or explicit (0-3, -1; thorough also 6 and `previous + 1/2`; 5 enumerators: over implicit, 1, 3, -1), named as
+//!    `Qi`, `Q::Qi` and `(uint)Qi`.
+//!  * qualified names (`check_ns_case`): namespaces a, b, a::a, a::b, b::a, b::b; every non-empty subset of the 7
+//!    scopes declares `struct T` / `static const uint K` with its own layout / value (same-named decoys); the buffer
+//!    is declared in every scope on the element type / a member type / an array length named by every relative and
+//!    `::`-rooted path with 0-2 namespace components that resolves under the C++ rule.
 //!
 //! Oracle: two independent, deliberately boring layout calculators (`hlsl_rules`, `metal_rules`).
 //!  * validation accepts  => total size and the byte offset of every field (recursively, array elements included)
@@ -39,6 +49,11 @@
 //!  layout|rejected|reported-size-wrong|hlsl / |metal
 //!  layout|rejected|reported-size-wrong|derived-struct|hlsl / |metal   ... and the flat declaration gets another verdict
 //!  layout|rejected|reported-size-wrong|two-uses   the reported sizes are the true sizes of neither struct
+//!  layout|accepted|array-length|<literal|arithmetic|static-const|enumerator>   an inconsistent struct is accepted
+//!                                              although the same struct with the length written as a plain literal is not
+//!  layout|accepted|name-resolution|<relative|rooted>-<0|1|2>-namespaces   ... although the same struct declared once and
+//!                                              named plainly is not (another same-named declaration was validated)
+//!  layout|rejected|reported-size-wrong|array-length|<..>|hlsl / |metal,  ...|name-resolution|<..>|hlsl / |metal
 //!  harness|generated-program-rejected   unjudged (the generated program does not reach the checker); layout|e2e-verdict-differs   compile() and check_layout disagree
 //!
 //! The class names describe the first thing that differs between the two *reference* layouts, not rssl's internal
@@ -953,17 +968,39 @@ fn declared(ty: &Ty, inh: Inh) -> String {
     format!(" declared with inheritance as `{}` (memory order: base members first)", out.split_whitespace().collect::<Vec<_>>().join(" "))
 }
 
+/// a case whose program is not the plain rendering of `ty`: the same struct(s), but array lengths written as constant
+/// expressions / the struct, a member type or a length constant named through a qualified path next to same-named
+/// decoys. `ty` is what the program means under the reference rules; the oracle is unchanged.
+#[derive(Default)]
+pub struct Spelling {
+    /// the program (None: `render(ty, form, inh)`)
+    src: Option<String>,
+    /// signature class used when the plainly written program gets another verdict, e.g. `array-length|enumerator`
+    class: Option<String>,
+    /// appended to the struct in violation details
+    note: String,
+    replay: Option<String>,
+    /// added to `complexity`: simplest spelling first
+    rank: u64,
+}
+
 pub fn check_case(ty: &Ty, form: Form, inh: Inh, e2e: &[Cfg], env: &Env, acc: &mut Acc) {
+    check_spelled(ty, form, inh, e2e, env, acc, &Spelling::default());
+}
+
+pub fn check_spelled(ty: &Ty, form: Form, inh: Inh, e2e: &[Cfg], env: &Env, acc: &mut Acc, sp: &Spelling) {
     let enumeration_index = acc.cur_index;
-    check_case_inner(ty, form, inh, e2e, env, acc);
+    check_case_inner(ty, form, inh, e2e, env, acc, sp);
     acc.cur_index = enumeration_index;
 }
 
-fn check_case_inner(ty: &Ty, form: Form, inh: Inh, e2e: &[Cfg], env: &Env, acc: &mut Acc) {
+fn check_case_inner(ty: &Ty, form: Form, inh: Inh, e2e: &[Cfg], env: &Env, acc: &mut Acc, sp: &Spelling) {
     acc.evals += 1;
     // rank of this case among the violations of one signature (restored by check_case)
-    acc.cur_index = complexity(ty, form, inh);
-    let src = render(ty, form, inh);
+    acc.cur_index = complexity(ty, form, inh) + sp.rank;
+    let src = sp.src.clone().unwrap_or_else(|| render(ty, form, inh));
+    let replay_body = |ty: &Ty, form: Form, inh: Inh, e2e: &[Cfg]| sp.replay.clone().unwrap_or_else(|| replay_body(ty, form, inh, e2e));
+    let declared = |ty: &Ty, inh: Inh| format!("{}{}", declared(ty, inh), sp.note);
     let derived = inh.effective(ty, 0);
     if derived {
         acc.count("cases_with_a_derived_struct");
@@ -1032,6 +1069,9 @@ fn check_case_inner(ty: &Ty, form: Form, inh: Inh, e2e: &[Cfg], env: &Env, acc: 
                         } else if derived && !matches!(flat_verdict(), Some(Verdict::Accept)) {
                             // the same members declared flat are not accepted: specific to struct inheritance
                             "layout|accepted|derived-struct".to_string()
+                        } else if sp.class.is_some() && !matches!(flat_verdict(), Some(Verdict::Accept)) {
+                            // the same struct written plainly is not accepted: specific to the spelling
+                            format!("layout|accepted|{}", sp.class.as_ref().unwrap())
                         } else {
                             format!("layout|accepted|{}", class)
                         };
@@ -1094,10 +1134,12 @@ fn check_case_inner(ty: &Ty, form: Form, inh: Inh, e2e: &[Cfg], env: &Env, acc: 
                 for (which, got, want, lay) in [("hlsl", *hs, h[0].size, &h), ("metal", *ms, m[0].size, &m)] {
                     if got != want {
                         ok = false;
-                        let specific = derived && flat_verdict().as_ref() != Some(&v);
+                        let specific = (derived || sp.class.is_some()) && flat_verdict().as_ref() != Some(&v);
                         acc.violation(Violation {
-                            signature: if specific {
+                            signature: if specific && derived {
                                 format!("layout|rejected|reported-size-wrong|derived-struct|{}", which)
+                            } else if specific {
+                                format!("layout|rejected|reported-size-wrong|{}|{}", sp.class.as_ref().unwrap(), which)
                             } else {
                                 format!("layout|rejected|reported-size-wrong|{}", which)
                             },
@@ -1312,6 +1354,354 @@ fn check_pair_inner(a: &Ty, fa: Form, b: Option<&Ty>, fb: Form, env: &Env, acc: 
         Verdict::Unknown => acc.count("known_layout_type_rejected_as_unknown(not_demanded)"),
         Verdict::Other(_) => unreachable!(),
     }
+}
+
+// ---------------------------------------------------------------------------------------------
+// K: array lengths written as constant expressions. The struct that the program means has an array of length n (1-4);
+// the length is written as a literal in another spelling, an arithmetic expression, a `static const`, or an enumerator
+// of an enum that mixes implicit and explicit enumerators. Reference evaluation: C rules on small non-negative
+// integers (no intermediate is negative, no division by zero), enumerators: first = 0, implicit = previous + 1.
+
+/// one way of writing the array length `n`
+#[derive(Clone, Debug)]
+pub struct LenSpelling {
+    /// declarations in front of the struct
+    prelude: String,
+    /// the text between the brackets
+    expr: String,
+    n: u32,
+    class: &'static str,
+}
+
+const LEN_OPS: [&str; 10] = ["+", "-", "*", "/", "%", "<<", ">>", "&", "|", "^"];
+
+fn len_prec(op: &str) -> u8 {
+    match op {
+        "*" | "/" | "%" => 5,
+        "+" | "-" => 4,
+        "<<" | ">>" => 3,
+        "&" => 2,
+        "^" => 1,
+        _ => 0,
+    }
+}
+
+/// None: outside the reference (division by zero, negative result, oversized shift)
+fn len_eval(a: i64, op: &str, b: i64) -> Option<i64> {
+    let v = match op {
+        "+" => a + b,
+        "-" => a - b,
+        "*" => a * b,
+        "/" => a.checked_div(b)?,
+        "%" => a.checked_rem(b)?,
+        // shift counts beyond the width of an int are outside the reference
+        "<<" if b < 16 && a < (1 << 15) => a << b,
+        ">>" if b < 16 => a >> b,
+        "<<" | ">>" => return None,
+        "&" => a & b,
+        "|" => a | b,
+        _ => a ^ b,
+    };
+    if v < 0 { None } else { Some(v) }
+}
+
+#[derive(Clone, Copy, PartialEq, Eq, Debug)]
+enum EnumItem {
+    Implicit,
+    Lit(i64),
+    /// `= <previous enumerator> + k`
+    Prev(i64),
+}
+
+/// level 0 = quick, 1 = thorough (a superset, in the same order per class)
+pub fn len_spellings(level: u32) -> Vec<LenSpelling> {
+    let mut v = Vec::new();
+    let ok = |x: i64| (1..=4).contains(&x);
+    // other spellings of a literal
+    for n in 1..=4u32 {
+        for expr in [format!("({n})"), format!("{n}u"), format!("0x{n}"), format!("(uint){n}"), format!("(int){n}")] {
+            v.push(LenSpelling { prelude: String::new(), expr, n, class: "literal" });
+        }
+        for t in ["uint", "int"] {
+            v.push(LenSpelling { prelude: format!("static const {t} K = {n};\n"), expr: "K".into(), n, class: "static-const" });
+        }
+    }
+    // a op b, directly and through static const
+    for op in LEN_OPS {
+        for a in 0..=8i64 {
+            for b in 0..=8i64 {
+                let Some(r) = len_eval(a, op, b) else { continue };
+                if !ok(r) {
+                    continue;
+                }
+                let n = r as u32;
+                v.push(LenSpelling { prelude: String::new(), expr: format!("{a} {op} {b}"), n, class: "arithmetic" });
+                v.push(LenSpelling { prelude: format!("static const uint K = {a};\n"), expr: format!("K {op} {b}"), n, class: "static-const" });
+                v.push(LenSpelling { prelude: format!("static const uint K = {b};\n"), expr: format!("{a} {op} K"), n, class: "static-const" });
+                v.push(LenSpelling { prelude: format!("static const uint L = {a} {op} {b};\n"), expr: "L".into(), n, class: "static-const" });
+                v.push(LenSpelling { prelude: format!("static const int K = {a};\nstatic const int L = K {op} {b};\n"), expr: "L".into(), n, class: "static-const" });
+            }
+        }
+    }
+    // a op1 b op2 c without parentheses (precedence and associativity), and with them on the right
+    let hi = if level == 0 { 3 } else { 4 };
+    for op1 in &LEN_OPS[..7] {
+        for op2 in &LEN_OPS[..7] {
+            for a in 1..=hi {
+                for b in 1..=hi {
+                    for c in 1..=hi {
+                        let plain = if len_prec(op1) >= len_prec(op2) { len_eval(a, op1, b).and_then(|x| len_eval(x, op2, c)) } else { len_eval(b, op2, c).and_then(|x| len_eval(a, op1, x)) };
+                        // both groupings must be inside the reference, so that no sub-expression is negative or divides by zero
+                        let left = len_eval(a, op1, b).and_then(|x| len_eval(x, op2, c));
+                        let right = len_eval(b, op2, c).and_then(|x| len_eval(a, op1, x));
+                        if left.is_none() || right.is_none() {
+                            continue;
+                        }
+                        if let Some(r) = plain.filter(|r| ok(*r)) {
+                            v.push(LenSpelling { prelude: String::new(), expr: format!("{a} {op1} {b} {op2} {c}"), n: r as u32, class: "arithmetic" });
+                        }
+                        if let Some(r) = right.filter(|r| ok(*r)) {
+                            v.push(LenSpelling { prelude: String::new(), expr: format!("{a} {op1} ({b} {op2} {c})"), n: r as u32, class: "arithmetic" });
+                        }
+                    }
+                }
+            }
+        }
+    }
+    // enumerators: every enum with 1..=4 enumerators, each implicit or explicit, every enumerator whose value is 1-4
+    let mut items = vec![EnumItem::Implicit, EnumItem::Lit(0), EnumItem::Lit(1), EnumItem::Lit(2), EnumItem::Lit(3), EnumItem::Lit(-1)];
+    if level > 0 {
+        items.extend([EnumItem::Lit(6), EnumItem::Prev(1), EnumItem::Prev(2)]);
+    }
+    let max_len = if level == 0 { 4 } else { 5 };
+    let base_items = items.clone();
+    for len in 1..=max_len {
+        // 5 enumerators: over {implicit, 1, 3, -1} only
+        let items = if len == 5 { vec![EnumItem::Implicit, EnumItem::Lit(1), EnumItem::Lit(3), EnumItem::Lit(-1)] } else { base_items.clone() };
+        let radices = vec![items.len() as u64; len];
+        let total = (items.len() as u64).pow(len as u32);
+        let mut d = Vec::new();
+        for idx in 0..total {
+            crate::util::decode(idx, &radices, &mut d);
+            let its: Vec<EnumItem> = d.iter().map(|x| items[*x as usize]).collect();
+            if matches!(its[0], EnumItem::Prev(_)) {
+                continue;
+            }
+            // all implicit / all explicit literal enums are the plain kinds; they are part of the space too
+            let mut vals: Vec<i64> = Vec::new();
+            let mut body = Vec::new();
+            for (i, it) in its.iter().enumerate() {
+                let val = match it {
+                    EnumItem::Implicit => vals.last().map(|p| p + 1).unwrap_or(0),
+                    EnumItem::Lit(x) => *x,
+                    EnumItem::Prev(k) => vals[i - 1] + k,
+                };
+                vals.push(val);
+                body.push(match it {
+                    EnumItem::Implicit => format!("Q{i}"),
+                    EnumItem::Lit(x) => format!("Q{i} = {x}"),
+                    EnumItem::Prev(k) => format!("Q{i} = Q{} + {k}", i - 1),
+                });
+            }
+            let prelude = format!("enum Q {{ {} }};\n", body.join(", "));
+            for (i, val) in vals.iter().enumerate() {
+                if !ok(*val) {
+                    continue;
+                }
+                for expr in [format!("Q{i}"), format!("Q::Q{i}"), format!("(uint)Q{i}")] {
+                    v.push(LenSpelling { prelude: prelude.clone(), expr, n: *val as u32, class: "enumerator" });
+                }
+            }
+        }
+    }
+    v
+}
+
+/// the structs around the array: `@` is the array of `n` elements. Consistent iff n % 4 == 0 / n even / never /
+/// n % 4 == 0 (offset of the member after the array) / n even (array inside a nested struct)
+const LEN_WRAPPERS: [&str; 5] = ["{float4,float@}", "{float3@}", "{float2,float@}", "{float@,float4}", "{float,{double,float@}}"];
+
+fn len_wrapper(w: usize, n: u32) -> Ty {
+    parse_ty(&LEN_WRAPPERS[w].replace('@', &format!("[{n}]"))).unwrap()
+}
+
+/// the plain rendering with the one array length replaced by the spelled expression
+fn render_len(ty: &Ty, form: Form, ls: &LenSpelling) -> String {
+    let mut decls = String::new();
+    let mut counter = 0;
+    let (name, _) = declare(ty, &mut decls, &mut counter, Inh::FLAT, 0);
+    let lit = format!("[{}];", ls.n);
+    assert!(decls.matches(&lit).count() == 1);
+    let decls = decls.replace(&lit, &format!("[{}];", ls.expr));
+    format!("{}{}{}", ls.prelude, decls, form.tail(&name, ""))
+}
+
+fn len_space_size(level: u32, n_spellings: usize) -> u64 {
+    (n_spellings * if level == 0 { 3 } else { LEN_WRAPPERS.len() }) as u64
+}
+
+pub fn check_len_case(level: u32, idx: u64, spellings: &[LenSpelling], forms: &[Form], env: &Env, acc: &mut Acc) {
+    let nw = if level == 0 { 3 } else { LEN_WRAPPERS.len() } as u64;
+    let ls = &spellings[(idx / nw) as usize];
+    let ty = len_wrapper((idx % nw) as usize, ls.n);
+    let form = forms[((idx / nw + idx % nw) % forms.len() as u64) as usize];
+    let sp = Spelling {
+        src: Some(render_len(&ty, form, ls)),
+        class: Some(format!("array-length|{}", ls.class)),
+        note: format!(" with the array length written as `{}`{}", ls.expr, if ls.prelude.is_empty() { String::new() } else { format!(" after `{}`", ls.prelude.trim().replace('\n', " ")) }),
+        replay: Some(format!("kind: length\nlevel: {level}\nindex: {idx}\n")),
+        rank: (ls.prelude.len() + ls.expr.len()) as u64 * 1000,
+    };
+    acc.count(&format!("array_length_spelled_as_{}", ls.class));
+    check_spelled(&ty, form, Inh::FLAT, &[], env, acc, &sp);
+}
+
+// ---------------------------------------------------------------------------------------------
+// L: qualified names. The namespaces a, b, a::a, a::b, b::a, b::b always exist; a non-empty subset of the 7 scopes
+// (root included) declares `struct T` and `static const uint K`, every scope with its own layout / value. In one scope
+// a buffer is declared on a struct that names T (as the element type itself or as the type of its only member) or K (as
+// an array length) through a relative or `::`-rooted path with 0-2 namespace components. Reference resolution (the C++
+// rule, restricted to the cases where it resolves): a rooted path walks down from the root; a relative path starts at
+// the innermost enclosing scope that has a namespace named like the first component (no component: at the innermost
+// enclosing scope that declares the name); the scope reached must declare the name. Everything is declared before the use.
+
+const NS_SCOPES: [&str; 7] = ["", "a", "b", "a::a", "a::b", "b::a", "b::b"];
+const NS_PARENT: [usize; 7] = [0, 0, 0, 1, 1, 2, 2];
+/// distinct (HLSL size, Metal size): 16/32, 16/16, 12/16, 20/24, 4/4, 6/8, 24/32 (two consistent, five not)
+const NS_LAYOUTS: [&str; 7] = ["{float3,float}", "{float4}", "{float3}", "{float2,float,float2}", "{float}", "{half3}", "{float3,float3}"];
+/// 0 = the path names the element struct, 1 = the type of a member, 2 = the constant that is an array length
+const NS_KINDS: [&str; 3] = ["element-type", "member-type", "length-constant"];
+
+fn ns_child(s: usize, name: &str) -> Option<usize> {
+    match (s, name) {
+        (0, "a") => Some(1),
+        (0, "b") => Some(2),
+        (1, "a") => Some(3),
+        (1, "b") => Some(4),
+        (2, "a") => Some(5),
+        (2, "b") => Some(6),
+        _ => None,
+    }
+}
+
+/// the 14 paths: relative / rooted x component lists of length 0-2 over {a, b}
+fn ns_path(p: usize) -> (bool, Vec<&'static str>) {
+    let comps: [&[&str]; 7] = [&[], &["a"], &["b"], &["a", "a"], &["a", "b"], &["b", "a"], &["b", "b"]];
+    (p >= 7, comps[p % 7].to_vec())
+}
+
+fn ns_resolve(u: usize, rooted: bool, comps: &[&str], mask: u32) -> Option<usize> {
+    let has = |s: usize| mask & (1 << s) != 0;
+    let walk = |mut s: usize, comps: &[&str]| -> Option<usize> {
+        for c in comps {
+            s = ns_child(s, c)?;
+        }
+        Some(s)
+    };
+    let reached = if rooted {
+        walk(0, comps)?
+    } else {
+        let mut e = u;
+        loop {
+            let found = if comps.is_empty() { has(e) } else { ns_child(e, comps[0]).is_some() };
+            if found {
+                break walk(e, comps)?;
+            }
+            if e == 0 {
+                return None;
+            }
+            e = NS_PARENT[e];
+        }
+    };
+    if has(reached) { Some(reached) } else { None }
+}
+
+pub struct NsCase {
+    mask: u32,
+    u: usize,
+    path: usize,
+    rot: usize,
+    kind: usize,
+}
+
+const NS_RADICES: [u64; 5] = [3, 14, 7, 127, 7];
+
+fn ns_decode(idx: u64) -> NsCase {
+    let mut d = Vec::new();
+    crate::util::decode(idx, &NS_RADICES, &mut d);
+    NsCase { kind: d[0] as usize, path: d[1] as usize, u: d[2] as usize, mask: d[3] as u32 + 1, rot: d[4] as usize }
+}
+
+fn ns_space_size(level: u32) -> u64 {
+    // the rotation is the slowest digit: quick = the first two rotations (any two scopes get a pair of layouts that are
+    // not both consistent under at least one of them), thorough = all seven
+    3 * 14 * 7 * 127 * if level == 0 { 2 } else { 7 }
+}
+
+fn ns_flat_struct(ty: &Ty, name: &str) -> String {
+    match ty {
+        Ty::Struct(ms) => format!("struct {name} {{ {} }};\n", ms.iter().enumerate().map(|(i, m)| format!("{} m{i};", m.expr())).collect::<Vec<_>>().join(" ")),
+        _ => unreachable!(),
+    }
+}
+
+fn ns_emit(s: usize, c: &NsCase, use_text: &str, out: &mut String) {
+    if c.mask & (1 << s) != 0 {
+        let l = (s + c.rot) % 7;
+        out.push_str(&ns_flat_struct(&parse_ty(NS_LAYOUTS[l]).unwrap(), "T"));
+        out.push_str(&format!("static const uint K = {};\n", l + 1));
+    }
+    // the namespace that contains the use comes last, so that every declaration precedes the use
+    let on_path = |k: usize| k == c.u || NS_PARENT[c.u] == k;
+    let mut kids: Vec<(usize, &str)> = ["a", "b"].iter().filter_map(|n| ns_child(s, n).map(|k| (k, *n))).collect();
+    kids.sort_by_key(|(k, _)| on_path(*k));
+    for (k, n) in kids {
+        out.push_str(&format!("namespace {n} {{\n"));
+        ns_emit(k, c, use_text, out);
+        out.push_str("}\n");
+    }
+    if s == c.u {
+        out.push_str(use_text);
+    }
+}
+
+/// None: the path does not resolve under the reference rule (not a case)
+pub fn check_ns_case(idx: u64, forms: &[Form], env: &Env, acc: &mut Acc) {
+    let c = ns_decode(idx);
+    let (rooted, comps) = ns_path(c.path);
+    let Some(target) = ns_resolve(c.u, rooted, &comps, c.mask) else { return };
+    let l = (target + c.rot) % 7;
+    let spelled = format!("{}{}", if rooted { " ::" } else { "" }, comps.iter().map(|c| format!("{c}::")).collect::<String>());
+    // one form per (declaring scopes, scope of the use): every path and kind of one situation is seen through the same use
+    let form = forms[(idx / 42 % forms.len() as u64) as usize];
+    let (ty, use_text) = match c.kind {
+        0 => (parse_ty(NS_LAYOUTS[l]).unwrap(), form.tail(&format!("{spelled}T"), "")),
+        1 => (parse_ty(&format!("{{{}}}", NS_LAYOUTS[l])).unwrap(), format!("struct W {{ {spelled}T m0; }};\n{}", form.tail("W", ""))),
+        _ => (parse_ty(&format!("{{float4,float[{}]}}", l + 1)).unwrap(), format!("struct W {{ float4 m0; float m1[{spelled}K]; }};\n{}", form.tail("W", ""))),
+    };
+    let mut src = String::new();
+    ns_emit(0, &c, &use_text, &mut src);
+    let decoys = (0..7).filter(|s| *s != target && c.mask & (1 << s) != 0).count();
+    let sp = Spelling {
+        src: Some(src),
+        class: Some(format!("name-resolution|{}-{}-namespaces", if rooted { "rooted" } else { "relative" }, comps.len())),
+        note: format!(
+            " named as {} `{}{}` in scope `::{}`, declared in scope `::{}` with other declarations of that name in {} of the scopes [::, a, b, a::a, a::b, b::a, b::b]",
+            NS_KINDS[c.kind],
+            spelled.trim(),
+            if c.kind == 2 { "K" } else { "T" },
+            NS_SCOPES[c.u],
+            NS_SCOPES[target],
+            decoys
+        ),
+        replay: Some(format!("kind: name\nindex: {idx}\n")),
+        rank: (decoys as u64 * 100 + comps.len() as u64 * 10 + c.kind as u64) * 1000,
+    };
+    acc.count(&format!("qualified_name_{}_{}_components", if rooted { "rooted" } else { "relative" }, comps.len()));
+    if decoys > 0 {
+        acc.count("qualified_name_cases_with_decoy_declarations");
+    }
+    check_spelled(&ty, form, Inh::FLAT, &[], env, acc, &sp);
 }
 
 // ---------------------------------------------------------------------------------------------
@@ -1740,11 +2130,27 @@ pub fn run(ctx: &Ctx) -> i32 {
         rep.absorb("two_uses_every_form_with_a_plain_form", r);
     }
 
+    // K: array lengths written as constant expressions; L: qualified names with same-named decoys
+    {
+        let level = ctx.pick(0u32, 1u32);
+        let spellings = len_spellings(level);
+        let mut per_class = std::collections::BTreeMap::new();
+        for s in &spellings {
+            *per_class.entry(s.class).or_insert(0u64) += 1;
+        }
+        rep.cov("array_length_spellings", Json::Obj(per_class.iter().map(|(k, v)| (k.to_string(), Json::Num(*v as f64))).collect()));
+        let r = run_par(ctx, len_space_size(level, spellings.len()), 64, |idx, acc| check_len_case(level, idx, &spellings, plain, &env, acc));
+        rep.absorb("array_length_constant_expressions", r);
+        let r = run_par(ctx, ns_space_size(level), 256, |idx, acc| check_ns_case(idx, plain, &env, acc));
+        rep.absorb("qualified_names_with_decoys", r);
+    }
+
     // H: bool / matrix members: error path only
     let u = unknown_space();
     run_space(ctx, &mut rep, &env, "unknown_layout_members", u.len() as u64, &two, af, false, flat, |i| Some(u[i as usize].clone()));
 
     if ctx.quick() {
+        rep.caps_hit.push("quick tier, array lengths: 3 of the 5 wrapper structs, a op b op c over 1-3 (thorough: 1-4), enums with <= 4 enumerators over {implicit, 0, 1, 2, 3, -1} (thorough: also 6 and previous + 1 / + 2, and 5 enumerators over {implicit, 1, 3, -1}); qualified names: 2 of the 7 assignments of layouts to scopes (thorough: all)".into());
         rep.caps_hit.push("quick tier, inheritance: 3 members over the 12 classes (thorough: 21 leaves), 4 members over 5 classes (thorough: 8), 5 members over 4 classes with one base after every member (thorough: 5 classes, every chain); derived nested structs over the 6-class alphabet (thorough: 12); every form x 42 structs (thorough: 156); depth-3 nesting with the nested structs cut after their first member (thorough: every cut of 2-member structs)".into());
         rep.caps_hit.push("quick tier: 5 members over 6 classes and 6 members over 5 classes (thorough: 12 and 8); depth-3 outer structs have <= 2 members (thorough: 3); the other members around an array / nested struct come from 8 classes (thorough: 12); arrays of structs and depth-3 nesting over the 6-class inner alphabet (thorough: 12-class inner structs, 8-class fillers); depth-2 nesting with one inner struct in every position + pairs (thorough adds: every member of an outer struct with <= 3 members is a leaf class or one of 72 inner structs)".into());
     }
@@ -1758,6 +2164,8 @@ pub fn run(ctx: &Ctx) -> i32 {
         "outside the exhaustive forms spaces each struct is used in exactly one buffer form (use x site), chosen by index modulo the number of forms".into(),
         "a derived struct `S : B` is the flat struct 'members of B, then the own members of S' with no extra padding after the base: that is what rssl's typer builds (base members are copied into the derived struct), what both exporters emit (a flat member list, never a base clause), and HLSL's rule; structs with several bases are outside the space (HLSL has no multiple inheritance)".into(),
         "with two uses in one program the rejection message does not name the struct: its two sizes must be the true sizes of one of the two structs".into(),
+        "array lengths written as expressions mean what C integer arithmetic on small non-negative operands gives (cases with a negative or undefined sub-expression are not in the space); enumerators count from 0, an implicit one is the previous one plus 1; the arrays have 1-4 elements".into(),
+        "qualified names mean what C++ lookup gives: a `::`-rooted path walks down from the root; a relative path starts at the innermost enclosing scope that has a namespace named like its first component (or, without components, that declares the name); paths that do not resolve to a declaration under that rule are not cases; every declaration precedes the use; the namespace tree is always the complete one over {a, b} to depth 2, so relative paths with two components only resolve from the root scope".into(),
         "bool and matrix members have no reference layout here; only absence of panics and the verdict counters are recorded".into(),
         "uses of a structured buffer the checker does not look at by construction (arrays of structured buffers, structured buffers as function parameters or struct members) are outside the enumerated space; they are listed under uses_outside_the_enumerated_space".into(),
     ];
@@ -1773,6 +2181,27 @@ pub fn replay(ctx: &Ctx, body: &str) -> i32 {
             println!("compile {}: {:?}", cfg.name(), validate_e2e(src, cfg));
         }
         return 0;
+    }
+    if body.starts_with("kind: length") || body.starts_with("kind: name") {
+        let num = |k: &str| body.lines().find_map(|l| l.strip_prefix(k)).and_then(|r| r.trim().parse::<u64>().ok());
+        let env = Env::probe();
+        let plain = &env.forms[..PLAIN_FORMS];
+        match (body.starts_with("kind: length"), num("level: "), num("index: ")) {
+            (true, Some(level), Some(idx)) if level <= 1 => {
+                let spellings = len_spellings(level as u32);
+                if idx >= len_space_size(level as u32, spellings.len()) {
+                    eprintln!("machinery error: index out of range");
+                    return 2;
+                }
+                check_len_case(level as u32, idx, &spellings, plain, &env, &mut acc);
+            }
+            (false, _, Some(idx)) if idx < ns_space_size(1) => check_ns_case(idx, plain, &env, &mut acc),
+            _ => {
+                eprintln!("machinery error: cannot parse replay body");
+                return 2;
+            }
+        }
+        return finish_replay(ctx, &acc);
     }
     if body.starts_with("kind: pair") {
         let field = |k: &str| body.lines().find_map(|l| l.strip_prefix(k)).map(|r| r.trim().to_string());
